@@ -89,7 +89,7 @@ def run(tier):
             else:
                 res.violation(key, "%s pushes a VKeyWitness without first removing/looking up an existing witness for the same key: "
                               "signing twice with one key leaves two witnesses" % f.name, where="%s:%s" % (f.file, t["s"][0]), rule="R-ORDER")
-    res.floor("VKeyWitness pushes", n_push, 2)
+    res.floor("VKeyWitness pushes", n_push, 1)   # 2 today; sign/add_signature may share a helper
 
     # (d) the signature map and the witness vector are updated with the same key and signature
     def leaves(sym):
